@@ -8,6 +8,7 @@ The theorems are stated for the code in VERIF_REPO: `Gen.Wrap.cacheBufWords` (F4
 -/
 import DmlcModel.Wrap.Cached
 import DmlcModel.Wrap.Threaded
+import DmlcModel.Wrap.TIterLink
 
 namespace DmlcModel.Props.C10
 open DmlcModel DmlcModel.Wrap DmlcModel.Gen.Wrap
@@ -33,15 +34,17 @@ object fetches exactly the base split's cells (pass 1 = base pass); in every sta
 `NextRecord` / `NextChunk` / `BeforeFirst` / destroy-and-reopen (`CReach`) what the iterator will still
 fetch is a suffix of the base pass (chunks come in order, none invented); `BeforeFirst` at any point
 succeeds and starts a pass over ALL chunks of the base pass (pass j ≥ 2 = pass 1) with the complete cache
-file on disk; and whenever the destructor leaves a determined file (`cClose s = some f`) a later object
-that reuses it replays all chunks of the base pass, whatever base split it is given. -/
+file on disk; and an object destroyed in ANY reachable state (also in the middle of its first pass: the
+destructor finishes the pass, `Gen.Wrap.dtorDrains`, fixes/C10-3.diff) leaves the complete file, which a
+later object replays chunk for chunk, whatever base split it is given. -/
 theorem C10_cached_transparent (cs : List Chunk) (hl : ∀ c ∈ cs, c.bytes.length < 2 ^ 64) :
     (∃ s0, cOpen none cs = .ok s0 ∧ s0.tmp = none ∧ s0.rest = cs ∧ CReach cs s0) ∧
     ∀ s, CReach cs s →
       (∃ k, upcoming s = (allBytes cs).drop k) ∧
       (∃ s', cBeforeFirst s = .ok s' ∧ s'.tmp = none ∧ upcoming s' = allBytes cs ∧ s'.file = encAll (allBytes cs)) ∧
-      (∀ f cs', cClose s = some f →
-        f = encAll (allBytes cs) ∧ ∃ s', cOpen (some f) cs' = .ok s' ∧ s'.tmp = none ∧ upcoming s' = allBytes cs) := by
+      (cClose s = some (encAll (allBytes cs)) ∧
+        ∀ cs', ∃ s', cOpen (some (encAll (allBytes cs))) cs' = .ok s' ∧ s'.tmp = none ∧ upcoming s' = allBytes cs ∧
+          CReach cs s') := by
   have hl' : ∀ b ∈ allBytes cs, b.length < 2 ^ 64 := by
     intro b hb
     simp only [allBytes, List.mem_map] at hb
@@ -56,77 +59,54 @@ theorem C10_cached_transparent (cs : List Chunk) (hl : ∀ c ∈ cs, c.bytes.len
     unfold upcoming
     rw [h2, h4]
     exact filterMap_chunkItems _
-  · intro f cs' hc
+  · obtain ⟨f, hc⟩ := close_total (by decide) s
     have hf := good_close _ s hg f hc
-    refine ⟨hf, ?_⟩
     subst hf
-    refine ⟨{ phase := .replay, file := encAll (allBytes cs), items := chunkItems (allBytes cs) }, ?_, rfl, ?_⟩
-    · unfold cOpen
+    refine ⟨hc, ?_⟩
+    intro cs'
+    have ho : cOpen (some (encAll (allBytes cs))) cs' =
+        .ok { phase := .replay, file := encAll (allBytes cs), items := chunkItems (allBytes cs) } := by
+      unfold cOpen
       exact startReplay_encAll _ hl'
-    · unfold upcoming
-      exact filterMap_chunkItems _
+    refine ⟨_, ho, rfl, ?_, CReach.reopen cs' hs hc ho⟩
+    unfold upcoming
+    exact filterMap_chunkItems _
 
 /-- non-vacuity: a two-chunk base pass, one record read, BeforeFirst, reopened -/
 example : ∃ s, CReach [⟨[97, 10], 2⟩, ⟨[98, 10], 2⟩] s ∧ s.phase = .replay :=
   ⟨_, CReach.bf CReach.first rfl, rfl⟩
 
-/-- **ThreadedInputSplit is transparent for every schedule** (corollary of the ThreadedIter theorems C07 /
-C08, taken as the hypothesis `TIterFacts`; the base split is the data source: item `i` of pass `p` is
-chunk `i` of the partition `parts p`, see `iterParams`).  In every reachable state of the iterator —
-i.e. under every interleaving of the prefetch thread with the wrapper's calls, spurious wake-ups
-included — the chunks handed to the caller so far in the current pass are an initial segment of the
-base split's chunk sequence for that pass, each delivered item is a chunk of it, and `Next` reports the
-end of the pass only when the whole sequence has been handed out.  After a successful `BeforeFirst` the
-next pass starts with nothing delivered. -/
+/-- **ThreadedInputSplit is transparent for every schedule** (corollary of the ThreadedIter theorems C07_order,
+C07_produced, C07_end_sound, C07_src_end, C07_no_failure, C08_fresh_pass, via `Wrap.titerFacts`; the base split
+is the data source: item `i` of pass `p` is chunk `i` of the partition `parts p`, see `iterParams`).  In every
+reachable state of the iterator -- i.e. under every interleaving of the prefetch thread with the wrapper's
+calls, spurious wake-ups included -- the chunks handed to the caller so far in the current pass are an
+initial segment of the base split's chunk sequence for that pass, each delivered item is a chunk of it, and
+`Next` reports the end of the pass only when the whole sequence has been handed out.  After a successful
+`BeforeFirst` the next pass starts with nothing delivered. -/
 theorem C10_threaded_transparent (B : Nat → Nat → List Chunk) (parts : Nat → Nat × Nat)
-    (F : TIterFacts (iterParams B parts)) (s : TIter.State) (h : TIter.Reachable (iterParams B parts) s) :
+    (s : TIter.State) (h : TIter.Reachable (iterParams B parts) s) :
     (s.delivered.filterMap (chunkOf B parts) <+: B (parts s.pass).1 (parts s.pass).2) ∧
     (∀ it ∈ s.delivered, (chunkOf B parts it).isSome = true) ∧
     (∀ e s', TIter.step (iterParams B parts) s e = some s' → s'.ret = .nextEnd →
       s.delivered.filterMap (chunkOf B parts) = B (parts s.pass).1 (parts s.pass).2) ∧
     (∀ s', TIter.step (iterParams B parts) s .xStep = some s' → s.xloc = .bExc1 → s'.ret = .ok →
-      s'.pass = s'.bfPass + 1 ∧ s'.delivered = []) := by
-  have ho := F.order s h
-  have hp := F.produced s h
-  have hch := prodList_chunks B parts s.pass s.pidx
-  refine ⟨?_, ?_, ?_, ?_⟩
-  · have : s.delivered.filterMap (chunkOf B parts) ++
-        (TIter.qitems s ++ TIter.optList s.pitem).filterMap (chunkOf B parts) =
-        (B (parts s.pass).1 (parts s.pass).2).take s.pidx := by
-      rw [← List.filterMap_append, ← List.append_assoc, ho, hp, hch]
-    exact List.IsPrefix.trans ⟨_, this⟩ (List.take_prefix _ _)
-  · intro it hit
-    apply prodList_all_chunks B parts s.pass s.pidx
-    rw [← hp, ← ho]
-    simp [hit]
-  · intro e s' hst hret
-    have hnt := F.noThrow (iterParams_noThrow B parts).1 (iterParams_noThrow B parts).2 s h
-    obtain ⟨hend, hdel⟩ := F.endSound s s' e h hst hret hnt
-    have hfin := F.srcEnd s h hend
-    have hge : (B (parts s.pass).1 (parts s.pass).2).length ≤ s.pidx := by
-      simp only [iterParams] at hfin
-      split at hfin
-      · cases hfin
-      · omega
-    rw [hdel, hp, hch, List.take_of_length_le hge]
-  · intro s' hst hx hr
-    exact F.freshPass s s' h hst hx hr
+      s'.pass = s'.bfPass + 1 ∧ s'.delivered = []) :=
+  threaded_transparent_of_facts B parts (titerFacts _) s h
+
+/-- non-vacuity: the initial state, and the state after the prefetch thread's first transition -/
+example : TIter.Reachable (iterParams (fun _ _ => [⟨[97, 10], 2⟩]) (fun _ => (0, 1))) {} := TIter.ReachableR.init
 
 /-- **No data race on the base split or on a lent chunk** (for the code in VERIF_REPO; needs the repair
-of F5: `Gen.Wrap.resetOnCaller = false`).  In every reachable state of the wrapper + iterator system:
-the calling thread is never inside the base split — neither while the prefetch thread is in the produce
-callback (`NextBatchEx`) nor during a transition in which it runs the rewind callback (`BeforeFirst`,
-`ResetPartition`) —, and the chunk the caller works on (`ExtractNext*`, reading the blob) is neither the
-cell the prefetch thread is filling nor in its queue or free list (the cell part uses C07_cells). -/
-theorem C10_race_free (P : TIter.Params) (F : TIterFacts P) (s : TW) (h : WReachable P s) :
+of F5: `Gen.Wrap.resetOnCaller = false`).  In every reachable state of the wrapper + iterator system, for
+every source / capacity: the calling thread is never inside the base split -- neither while the prefetch
+thread is in the produce callback (`NextBatchEx`) nor during a transition in which it runs the rewind
+callback (`BeforeFirst`, `ResetPartition`) --, and the chunk the caller works on (`ExtractNext*`, reading
+the blob) is neither the cell the prefetch thread is filling nor in its queue or free list (C07_cells). -/
+theorem C10_race_free (P : TIter.Params) (s : TW) (h : WReachable P s) :
     ¬ (producerInBase s = true ∧ s.callerInBase = true) ∧
     (∀ e, rewindsNow P s e = true → s.callerInBase = false) ∧
-    (∀ c, s.touching = some c → s.it.pcell ≠ some c ∧ c ∉ TIter.qcells s.it ∧ c ∉ s.it.free) := by
-  have hcb := caller_never_in_base (by decide) P s h
-  refine ⟨?_, ?_, ?_⟩
-  · rw [hcb]; simp
-  · intro _ _; exact hcb
-  · intro c hc
-    exact lent_exclusive P F s.it (wreach_iter P s h) c (touching_lent P s h c hc)
+    (∀ c, s.touching = some c → s.it.pcell ≠ some c ∧ c ∉ TIter.qcells s.it ∧ c ∉ s.it.free) :=
+  race_free_of_facts P (titerFacts P) s h
 
 end DmlcModel.Props.C10
